@@ -65,7 +65,7 @@ def gen_cases(tier, seed):
                               "world": "f64", "fd": tier == "thorough", "cost": 1})
         for rep in range(nb):
             for B in (0.5, 1.0, 3.0, 30.0):
-                cases.append({"kind": "spline_fn", "family": fam, "box": None, "B": B, "bins": [2, 3, 5, 8][rep % 4],
+                cases.append({"kind": "spline_fn", "family": fam, "box": None, "B": B, "bins": [1, 2, 3, 5, 8][rep % 5],
                               "pscale": [0.0, 0.5, 1.0, 3.0][rep % 4], "seed": env.subseed(seed, fam, "tails", B, rep),
                               "world": "f64", "fd": tier == "thorough", "cost": 1})
     return cases
